@@ -42,3 +42,20 @@ Example c15_example :
   get 5 [(SVariables, [(KOpt 7, [Lit 6])]); (SDensity, [(KSp 7, [Lit 4; Var 7])])] SDensity (KSp 7) = Some [4; 6]%nat /\
   exists st', substituted 5 st = Some st' /\ lookup SPair (KPair 0 1) st' = Some [3; 1; 2; 5]%nat.
 Proof. split; [vm_compute; reflexivity|]. split; [reflexivity|]. split; [vm_compute; reflexivity|]. eexists. split; vm_compute; reflexivity. Qed.
+
+(* --- at the level of characters (model/TextInterp.v over the sections model/Ini.v parses; restates ExtendedInterpolation and the
+       repository's _VariablesFirstInterpolation / get / has_option): a value is cut into literal text and placeholders exactly as
+       it was written (c15_text_template: any literals without "$", "$$", ${NAME} and ${SECTION:KEY} with names in the form
+       optionxform gives them); interpolating a text whose placeholders name values without "$" is writing those values in their
+       place (c15_text_substitution), so a text without "$" is its own value; and ${NAME} is the entry of [Variables] whenever
+       [Variables] has one, whatever the section holds under that name (c15_text_variables_first) *)
+From Coq Require Import ZArith.
+From V Require Import model.Ini model.TextInterp proof.C15Text.
+Theorem c15_text_template : forall frs, frags_ok frs -> template (render frs) = Some frs.
+Proof. exact template_render. Qed.
+Theorem c15_text_substitution : forall st s frs f, frags_ok frs -> plain_values st s frs ->
+  tinterp (S f) st s (render frs) = C15Text.substituted st s frs.
+Proof. exact interp_is_substitution. Qed.
+Theorem c15_text_variables_first : forall st s n v, opt_of n (defaults st) = Some v -> lookup_name st s n = Some v.
+Proof. exact name_variables_first. Qed.
+Print Assumptions c15_text_substitution.
